@@ -173,7 +173,7 @@ fn run(rep: &Report) {
     let mut letters = sigma2(&env);
     letters.extend(strict_sensitive(&env));
     let a_id = coin_id(&P1, &PH1, 5);
-    rep.set_rule("bundles: spend A=(P1,PH1,5) carrying every ordered pair (quick: every multiset of <=2; thorough: every multiset of <=2 on A plus <=1 on a second spend B-child / C-sibling, and every multiset of 3 over the strict-sensitive + lock letters) of the interaction letters and the strict-sensitive letters; relation (a) on 4 fork flag sets x 7 strictness subsets; relation (b) on all permutations of conditions within spends x all permutations of spends under 4 flag sets; plus every multiset of 3 locks inside each after/before family (82+86, 80+84, 83+87, 81+85) on A; plus the ephemeral child B carrying every multiset of 2 lock / birth / ASSERT_EPHEMERAL letters; plus LIMIT_SPENDS at 5999/6000/6001 spends. distinct = distinct bundles");
+    rep.set_rule("bundles: spend A=(P1,PH1,5) carrying every multiset of <=2, every multiset of <=1 on A plus <=1 on a second spend B-child / C-sibling, and every multiset of 3 over the strict-sensitive + lock letters (both tiers enumerate the same space) of the interaction letters and the strict-sensitive letters; relation (a) on 4 fork flag sets x 7 strictness subsets; relation (b) on all permutations of conditions within spends x all permutations of spends under 4 flag sets; plus every multiset of 3 locks inside each after/before family (82+86, 80+84, 83+87, 81+85) on A; plus the ephemeral child B carrying every multiset of 2 lock / birth / ASSERT_EPHEMERAL letters; plus LIMIT_SPENDS at 5999/6000/6001 spends. distinct = distinct bundles");
     rep.assume("both sides of each relation are the real parse_spends; summaries are compared after sorting spends by coin id, sorting signature lists and masking the positionally defined FF flag");
     rep.extra("letters", json!(letters.len()));
     let n = letters.len();
@@ -224,7 +224,8 @@ fn run(rep: &Report) {
             }
         }
     }
-    if rep.tier == mc::Tier::Thorough {
+    // (formerly thorough only; a few seconds)
+    {
         // triples over the letters that interact through aggregation (locks, fees, strict-sensitive)
         let idx: Vec<usize> = (0..n).filter(|i| { let nme = &letters[*i].0; nme.starts_with("op8") || nme.starts_with("op7") || nme.starts_with("op52") || nme.contains('+') || nme.starts_with("opx") || nme.starts_with("op90") }).collect();
         for (x, &i) in idx.iter().enumerate() {
